@@ -406,22 +406,53 @@ class WebSocketTemporaryHandler(object):
             self._writeFrame(frame)
         self.closed = True
 
+    def _frameSize(self):
+        """ return the size of the next frame in the buffer, or None if
+        the frame header has not been received completely
+        """
+        buf = self._buffer.buf
+        if len(buf) < 2:
+            return None
+        size = 2
+        length = buf[1] & 0x7F
+        if length == 126:
+            if len(buf) < 4:
+                return None
+            length, = struct.unpack("!H", buf[2:4])
+            size += 2
+        elif length == 127:
+            if len(buf) < 10:
+                return None
+            length, = struct.unpack("!Q", buf[2:10])
+            size += 8
+        if buf[1] & 0x80:
+            size += 4
+        return size + length
+
     def __call__(self, data):
         self._buffer._push(data)
 
-        frame = self._readFrame()
+        # tcp is a byte stream: the data may end in the middle of a frame
+        # or contain more than one frame. process every complete frame
+        # and keep the remainder for the next call
+        while True:
+            size = self._frameSize()
+            if size is None or len(self._buffer.buf) < size:
+                break
 
-        if not frame.flags.mask:
-            raise Exception("client mask bit not set")
+            frame = self._readFrame()
 
-        if frame.flags.opcode == WebSocketOpCode.Text:
-            frame.payload = frame.payload.decode("utf-8")
+            if not frame.flags.mask:
+                raise Exception("client mask bit not set")
 
-        # TODO: catch and close?
-        self._endpt.callback(self, frame.flags.opcode, frame.payload)
+            if frame.flags.opcode == WebSocketOpCode.Text:
+                frame.payload = frame.payload.decode("utf-8")
 
-        if frame.flags.opcode == WebSocketOpCode.Close:
-            self.close()
+            # TODO: catch and close?
+            self._endpt.callback(self, frame.flags.opcode, frame.payload)
+
+            if frame.flags.opcode == WebSocketOpCode.Close:
+                self.close()
 
 def get(path):
     """decorator which registers a class method as a GET handler
